@@ -580,6 +580,8 @@ class System:
         if self._g[eidx]._component_type == _ComponentTypes.PMUX:
             if not isinstance(comp, PMux):
                 raise ValueError("PMux cannot be changed to other type!")
+        elif isinstance(comp, PMux) and self._get_pmux() != -1:
+            raise ValueError("a system can only have one PMux")
 
         # check that parent allows component type as child
         parents = self._get_parents()
